@@ -4,7 +4,7 @@ package main
 
 // C08: FINDCONTENT.  Lines (concrete inputs ; derived abstract view | observable):
 //
-//	fc <selfkey> <requesterenr> <askerip:port> <contentkey> <F:contenthex | N | E> <enrhex:live,...> ; <requester id> <content id> <table records in nodeList order>
+//	fc <selfkey> <requesterenr> <askerip:port> <contentkey> <F:contenthex | N | E | E:contenthex (held, read fails) | N@del:enr / N@add:enr (table changes during the store read)> <enrhex:live,...> ; <requester id> <content id> <table records in nodeList order>
 //	     | raw <replylen> <hex> / connid <replylen> / enrs <replylen> <tags> / err
 //	pc <selfkey> <senderenr> <resphex> <genflags> ; <senderrec> <E | recs> | raw <hex> / connid <hex> / enrs <tags> / err / panic
 //	uc <own versions> <peer pv entry: M (missing) | E (empty) | X (malformed) | digits> <enc|dec> <hex> <pv entry of an older record of the peer held by the table | ~> | ok <hex> / err
@@ -41,8 +41,30 @@ func c08execFc(c *Ctx, keyhex string, reqEnr []byte, asker string, ckey []byte, 
 		store.db[string(cid[:])] = unhx(st[2:])
 	case st == "E":
 		store.fail[string(cid[:])] = true
+	case strings.HasPrefix(st, "E:"): // the key IS held, but reading it fails (I/O error, closed database)
+		store.db[string(cid[:])] = unhx(st[2:])
+		store.fail[string(cid[:])] = true
 	}
 	hFill(inst, ins)
+	// N@del:<enr> / N@add:<enr>: the content is not held and the routing table changes DURING the store read
+	store.onGet = nil
+	mutated := false
+	if strings.HasPrefix(st, "N@") {
+		kind, eh, _ := strings.Cut(st[2:], ":")
+		mn, err := hNodeFromBytes(unhx(eh))
+		if err != nil {
+			panic(err)
+		}
+		mutated = true
+		store.onGet = func() {
+			if kind == "del" {
+				inst.DeleteNode(mn) // deleteInBucket promotes a replacement of that bucket, if there is one
+			} else {
+				inst.AddNode(mn, true, false)
+			}
+		}
+		defer func() { store.onGet = nil }()
+	}
 	req, err := hNodeFromBytes(reqEnr)
 	if err != nil {
 		panic(err)
@@ -62,6 +84,17 @@ func c08execFc(c *Ctx, keyhex string, reqEnr []byte, asker string, ckey []byte, 
 	var resp []byte
 	var herr error
 	panicked, pmsg := guard(func() { resp, herr = inst.HandleFindContent(req, addr, &portalwire.FindContent{ContentKey: ckey}) })
+	if mutated {
+		// the table the handler read is the one after the change: the reply is judged against that
+		t = newTags()
+		nl = inst.NodeList()
+		recs = make([]string, len(nl))
+		for i, n := range nl {
+			eb := hEnrBytes(n)
+			recs[i] = hRecStr(t.tag(eb), n, len(eb), true)
+		}
+		c.Count("fc_table_changed_during_store_read")
+	}
 	obs := ""
 	switch {
 	case panicked:
@@ -356,6 +389,10 @@ func c08fcCase(c *Ctx, r *Rng, key string, pool []hPoolKey) {
 		st = "N"
 	case k == 4:
 		st = "E"
+		if r.Bool() { // held, but the read fails
+			st = "E:" + hx(r.Bytes(r.Pick([]int{1, 100, 1175, 1176, 3000})))
+			c.Count("fc_store_read_fails_for_held_key")
+		}
 	default:
 		sz := r.Pick([]int{0, 1, 2, 100, 1000, 1173, 1174, 1175, 1175, 1176, 1176, 1177, 2047, 2048, 2049, 4096})
 		st = "F:" + hx(r.Bytes(sz))
@@ -367,6 +404,50 @@ func c08fcCase(c *Ctx, r *Rng, key string, pool []hPoolKey) {
 	a, _ := netip.AddrFromSlice(hIP(r, r.Pick2([]string{"loop", "lan10", "pub", "v6pub"})))
 	asker := netip.AddrPortFrom(a.Unmap(), uint16(1025+r.Intn(60000))).String()
 	c08execFc(c, key, hEnrBytes(req), asker, ckey, st, ins)
+}
+
+// c08mutCase: the routing table changes during the store read of a not-held key.
+//
+//	promote: the asker sits in the replacement list of a full bucket and an entry of that bucket is deleted during the read,
+//	         which promotes the asker into the table: the reply must still not contain the asker;
+//	del:     an entry that would have been listed disappears;   add: a node close to the content appears.
+func c08mutCase(c *Ctx, r *Rng, key string) {
+	inst := hInstance(key, "-", "history")
+	self := inst.Self().ID()
+	ckey := r.Bytes(1 + r.Intn(40))
+	cid := sha256.Sum256(ckey)
+	mk := func(id enode.ID) *enode.Node {
+		return hRecord(nil, id, hIP(r, r.Pick2([]string{"loop", "lan10", "lan192"})), 30303, 1, 0)
+	}
+	var ins []c11ins
+	d := 245 + r.Intn(12)
+	var bucket []*enode.Node
+	for i := 0; i < 16; i++ {
+		n := mk(hIDAtDistance(r, self, d))
+		bucket = append(bucket, n)
+		ins = append(ins, c11ins{hEnrBytes(n), true})
+	}
+	for i, k := 0, r.Intn(8); i < k; i++ { // a few entries elsewhere
+		dd := 245 + r.Intn(12)
+		if dd != d {
+			ins = append(ins, c11ins{hEnrBytes(mk(hIDAtDistance(r, self, dd))), true})
+		}
+	}
+	asker := mk(hIDAtDistance(r, self, d)) // 17th of the bucket: goes to the replacement list
+	st := ""
+	switch r.Intn(4) {
+	case 0, 1:
+		ins = append(ins, c11ins{hEnrBytes(asker), true})
+		st = "N@del:" + hx(hEnrBytes(bucket[r.Intn(len(bucket))]))
+		c.Count("fc_mut_asker_promoted_during_read")
+	case 2:
+		st = "N@del:" + hx(hEnrBytes(bucket[r.Intn(len(bucket))]))
+		c.Count("fc_mut_listed_node_removed_during_read")
+	default:
+		st = "N@add:" + hx(hEnrBytes(mk(hIDAtDistance(r, enode.ID(cid), 1+r.Intn(200)))))
+		c.Count("fc_mut_closer_node_added_during_read")
+	}
+	c08execFc(c, key, hEnrBytes(asker), "127.0.0.1:30303", ckey, st, ins)
 }
 
 func c08pcCase(c *Ctx, r *Rng, key string, pool []hPoolKey) {
@@ -655,6 +736,10 @@ func runC08(c *Ctx) {
 	pool := hPool(r, 64)
 	key := hKeyHex(hKey(r))
 	for i := 0; i < nfc; i++ {
+		if i%12 == 5 {
+			c08mutCase(c, r, key)
+			continue
+		}
 		c08fcCase(c, r, key, pool)
 	}
 	for i := 0; i < npc; i++ {
